@@ -28,7 +28,8 @@ def kinds():
     K = []
 
     def add(name, owner, req, res):
-        base = {"contact-sync-part": "contact-sync", "contact-sync-delta": "contact-sync", "picture-get-full": "picture-get", "privacy-get-future": "privacy-get"}.get(name, name)
+        base = {"contact-sync-part": "contact-sync", "contact-sync-delta": "contact-sync", "picture-get-full": "picture-get", "privacy-get-future": "privacy-get",
+                "media-upload-duplicate": "media-upload", "media-upload-resume": "media-upload"}.get(name, name)
         K.append({"name": name, "base": base, "owner": owner, "req": req, "res": res})
     add("ping", "YowIqProtocolLayer", lambda: PingIqProtocolEntity(to="s.whatsapp.net"), generic)
     add("lastseen", "YowPresenceProtocolLayer", lambda: LastseenIqProtocolEntity(JID),
@@ -70,6 +71,11 @@ def kinds():
     add("picture-get-full", "YowProfilesProtocolLayer", lambda: PR.GetPictureIqProtocolEntity(JID, preview=False), picture)
     add("media-upload", "YowMediaProtocolLayer", lambda: M.RequestUploadIqProtocolEntity("image", b64Hash="aGFzaA==", size=10),
         lambda i: M.ResultRequestUploadIqProtocolEntity(i, "https://mmg.whatsapp.net/u/1", None, 0, False).toProtocolTreeNode())
+    # the other answers the server gives to an upload request: the file is already there (<duplicate url=…/>), or part of it is (resume offset)
+    add("media-upload-duplicate", "YowMediaProtocolLayer", lambda: M.RequestUploadIqProtocolEntity("video", b64Hash="aGFzaDI=", size=2048),
+        lambda i: M.ResultRequestUploadIqProtocolEntity(i, "https://mmg.whatsapp.net/d/f/2.enc", None, 0, True).toProtocolTreeNode())
+    add("media-upload-resume", "YowMediaProtocolLayer", lambda: M.RequestUploadIqProtocolEntity("document", b64Hash="aGFzaDM=", size=4096),
+        lambda i: M.ResultRequestUploadIqProtocolEntity(i, "https://mmg.whatsapp.net/u/3", "10.0.0.3", 1024, False).toProtocolTreeNode())
     return K
 
 
